@@ -24,9 +24,10 @@ def dict_map_keys(B, d):
 
 
 def dict_keys_list(B, st, d) -> VList:
-    ref = z3.Select(st.dkeys(), d.ref)
+    dk = st.dkeys()
+    ref = z3.Select(dk, d.ref)
     l = VList(ref, d.kt)
-    B.eng.assume_wf(st, l)
+    B.eng.assume_wf(st, l, dk)
     return l
 
 
@@ -49,9 +50,10 @@ def dict_has(B, st, d, k):
 
 
 def dict_get_raw(B, st, d, k):
-    term = z3.Select(z3.Select(st.dval(_ks(d), _vs(d)), d.ref), key_term(B, st, d, k))
+    dv = st.dval(_ks(d), _vs(d))
+    term = z3.Select(z3.Select(dv, d.ref), key_term(B, st, d, k))
     v = B.eng.wrap(st, term, d.vt)
-    B.eng.assume_wf(st, v)
+    B.eng.assume_wf(st, v, dv if z3.is_const(dv) else None)
     return v
 
 
